@@ -406,6 +406,14 @@ class StackWorld(object):
     else:
       c = self.tracker.issue(self.dispatcher, cid, m, args, timeout=op.get('timeout'), spec=op)
     c.extra['all_down_at_issue'] = all_down
+    if self.scn.get('close_on') == cid and c.ar is not None and self.closed_at is None:
+      def close_now(_ar):
+        if self.closed_at is None:
+          self.closed_at = CLOCK.now
+          REC.fault('client_close_on_completion')
+          self.loop.note('fault', 'close on completion of %s' % cid)
+          self.client.DispatcherClose()
+      c.ar.rawlink(close_now)
     if c.before_open:
       c.extra['open_wait_start'] = CLOCK.now
     n_out = len([x for x in self.tracker.order if not x.completions and x.first is None])
